@@ -156,30 +156,7 @@ def predicate(c):
                 bad.append(("C17-panic-or-hang", "operation outcome " + kk))
         return bad
     if "trunc2" in f:
-        # a COMPLETE frame whose message set is truncated by the broker inside the last magic-2
-        # record (MaxBytes truncation): the whole records are delivered, the batch then ends,
-        # Close returns nil, the client has consumed exactly the fetch frame: the next operations
-        # get their own answers (never a hang, never bytes of the next response)
-        ks = [kind(x) for x, _ in r]
-        want = parse_msgs(f.get("want", "[]")) or []
-        if ks[0] != "ok" or r[0][1] != "0":
-            bad.append(("C11-truncated-record-read-past-frame", f"{op} nwhole={f.get('nwhole')} hdr={f.get('hdr')} t={f.get('t')}/{f.get('reclen')} mode={f.get('mode')}: "
-                                                                 f"the read returned {r[0][0][:70]}~{r[0][1]}"))
-        else:
-            acts = r[0][0].split(":[", 1)[1][:-1]
-            got = [a.split(",", 1)[1].rsplit(",", 1)[0] for a in acts.split(";") if a.startswith("m,") and a.endswith(",ok") and a != "m,0,.,.,ok"]
-            if got != want[:len(got)]:
-                # Conn.ReadMessage / Conn.Read hide the end-of-batch io.EOF (silentEOF) and hand out what
-                # the truncated record's callbacks had captured: not an alignment matter (noted, not failed)
-                key = "NOTE-conn-read-partial-result-on-truncated-batch" if op.startswith("connread") else "C11-truncated-record-fabricated-message"
-                bad.append((key, f"{op} t={f.get('t')}/{f.get('reclen')}: nil error with {got} although no whole record was received (whole records {want})"))
-        for i, k in enumerate(ks[1:], 2):
-            if k != "ok" or r[i - 1][1] != "0":
-                bad.append(("C11-truncated-record-read-past-frame",
-                            f"{op} nwhole={f.get('nwhole')} hdr={f.get('hdr')} t={f.get('t')}/{f.get('reclen')} mode={f.get('mode')}: after {r[0][0][:40]} "
-                            f"operation #{i} returned {r[i - 1][0][:50]} instead of its own answer (the client did not stop at the frame boundary)"))
-                break
-        return bad
+        return trunc2_predicate(c, f, r, op)
     if "split" in f:
         # the response delivered in two pieces at every position (optionally with the following
         # responses already queued): same results as in one piece: everything succeeds
@@ -335,6 +312,70 @@ def parse_msgs(txt):
     return [] if body == "" else body.split(";")
 
 
+KEY_F35 = "F35-conn-truncated-record-partial-data"
+
+
+def trunc2_predicate(c, f, r, op):
+    """A COMPLETE frame whose magic-2 batch is truncated by the broker inside its last record
+    (MaxBytes truncation).  C11: the client consumes exactly the fetch frame (Close nil, Conn kept,
+    the next operations get their own answers; never a hang).  C05 (Conn path): every API delivers
+    exactly the whole records, and the action that hits the truncation returns NO data:
+    Batch.ReadMessage / Batch.Read: io.EOF and n == 0; Conn.ReadMessage / Conn.Read (which silence
+    the end-of-batch io.EOF by design): nil error with an empty key/value resp. n == 0."""
+    bad = []
+    ks = [kind(x) for x, _ in r]
+    want = parse_msgs(f.get("want", "[]")) or []
+    where = f"{op} nwhole={f.get('nwhole')} hdr={f.get('hdr')} truncated {f.get('t')}/{f.get('reclen')} bytes into the last record (mode {f.get('mode')})"
+    if ks[0] != "ok" or r[0][1] != "0":
+        bad.append(("C11-truncated-record-read-past-frame", f"{where}: the read returned {r[0][0][:70]}~{r[0][1]}"))
+    else:
+        acts = r[0][0].split(":[", 1)[1][:-1]
+        acts = acts.split(";") if acts else []
+        nwhole = int(f.get("nwhole", "0"))
+        whole, last = acts[:nwhole], acts[nwhole:]
+        # the whole records, exactly
+        exp_vals = [w.split(",", 2) for w in want]          # [off, key, val]
+        ok_whole = len(whole) == nwhole
+        for a, w in zip(whole, exp_vals):
+            p = a.split(",")
+            if p[0] == "m":
+                ok_whole = ok_whole and p[-1] == "ok" and p[1:4] == w
+            else:
+                ok_whole = ok_whole and p[-1] == "ok" and p[2] == w[2]
+        if not ok_whole:
+            bad.append((KEY_F35, f"C05 Conn path on a record truncated by the broker: {where}: the whole records were not delivered exactly: {whole} vs {want}"))
+        # the action at the truncation: nothing
+        conn = op.startswith("connread")
+        exp_last = {"connreadmsg": None, "connread": "r,0,.,ok"}.get(op.split("v")[0])
+        if len(last) != 1:
+            bad.append((KEY_F35, f"C05 Conn path on a record truncated by the broker: {where}: {len(last)} actions reported after the whole records"))
+        else:
+            a = last[0]
+            p = a.split(",")
+            if op.startswith("connreadmsg"):
+                good = len(p) == 5 and p[0] == "m" and p[2] == "." and p[3] == "." and p[4] == "ok"
+                api = "Conn.ReadMessage"
+            elif op.startswith("connread"):
+                good = a == "r,0,.,ok"
+                api = "Conn.Read"
+            elif p[0] == "m":
+                good = a == "m,eof"
+                api = "Batch.ReadMessage"
+            else:
+                good = a == "r,0,.,eof"
+                api = "Batch.Read"
+            if not good:
+                bad.append((KEY_F35, f"C05 Conn path on a record truncated by the broker: {api} returned data of a record the broker never completely "
+                                     f"sent ({a[:60]}; expected no data: " + ("nil error with empty key/value" if api == "Conn.ReadMessage" else
+                                      "n = 0, nil error" if api == "Conn.Read" else "io.EOF" + (" and n = 0" if api == "Batch.Read" else "")) + f"); {where}"))
+    for i, k in enumerate(ks[1:], 2):
+        if k != "ok" or r[i - 1][1] != "0":
+            bad.append(("C11-truncated-record-read-past-frame",
+                        f"{where}: after {r[0][0][:40]} operation #{i} returned {r[i - 1][0][:50]} instead of its own answer (the client did not stop at the frame boundary)"))
+            break
+    return bad
+
+
 def drain_predicate(c, f):
     """fetch + ReadMessage until error + Close (no model: the message-set reader is C02's).
     C17: with the response cut at byte k the records delivered are a prefix of the records sent
@@ -455,20 +496,17 @@ def evaluate(cases, res, want):
                      "(an operation of the real Conn never returned); the hung cases are reported as property violations")
     bad = L.diff_cases([c for c in sel if "drain" not in feats_of(c) and "comp" not in feats_of(c) and "trunc2" not in feats_of(c)
                         and "notrun~" not in c["go"]], res)
-    # PART K: the model does not keep what the action that hits the broker's truncation had already
-    # captured (Batch.Read returns n = len(value) with io.EOF when only the record headers are cut;
-    # Conn.Read / Conn.ReadMessage return that partial result with a nil error): compare everything
-    # but the content of that last action
+    # PART K is compared in full: at the truncation the model's action returns nothing, like the
+    # (repaired) code.  Only Message.Offset of Conn.ReadMessage's empty result is left out (the code
+    # reports the offset when the record's offset delta had been received, the model 0).
     def norm_trunc(txt, conn):
         t0, _, rest = txt.partition(" ")
         if conn:
-            t0 = re.sub(r":\[[^\]]*\]", ":[_]", t0)
-        else:
-            t0 = re.sub(r"r,[^;\]]*,eof\]", "r,_,eof]", t0)
+            t0 = re.sub(r"\[m,[^,\]]*,\.,\.,ok\]", "[m,_,.,.,ok]", t0)
         return t0 + " " + rest
     for c in sel:
         if "trunc2" in feats_of(c) and "notrun~" not in c["go"]:
-            conn = feats_of(c).get("op", "").startswith("connread")
+            conn = feats_of(c).get("op", "").startswith("connreadmsg")
             m = res.get(c["id"])
             if m is None or norm_trunc(c["go"], conn) != norm_trunc(m, conn):
                 c2 = dict(c); c2["model"] = m
@@ -573,6 +611,48 @@ def conn_cut_cases(ctx):
     return dict(evaluations=ev["evaluations"], distinct_nontrivial=ev["distinct_nontrivial"], hist=ev["hist"],
                 rule="Conn half of C17: " + RULE.split("PART B:")[1], samples=samples, failures=ev["failures"], notes=ev["notes"],
                 extra=dict(exhaustive=bool(ctx.thorough), cut_cases=len(sel)))
+
+
+def truncated_record_cases(ctx, _gen_output=None):
+    """Hosting function for C05 (Conn path): the trunc2 family (PART K) with the STRICT predicate on
+    the implementation's own output; same dict shape as conn_cut_cases.  No model run: a few seconds."""
+    if _gen_output is None:
+        gobin = L.go_build("c11")
+        tier = "thorough" if ctx.thorough else "quick"
+        rc, out, err, dt = L.sh([gobin, "-gen", "-seed", str(ctx.seed), "-tier", tier], timeout=600)
+        if rc != 0:
+            raise L.Fail("correspondence", "harness cmd/c11 crashed", (out[-1500:] + err[-2500:]))
+    else:
+        out = _gen_output
+    sel = [c for c in L.parse_cases(out) if "trunc2" in feats_of(c)]
+    failures, by_key = [], {}
+    for c in sel:
+        for key, what in predicate(c):
+            by_key.setdefault(key, []).append((c, what))
+    for key in sorted(by_key):
+        lst = by_key[key]
+        c, what = lst[0]
+        ops = sorted({feats_of(x).get("op", "?") for x, _ in lst})
+        if not what.startswith("C05 Conn path"):
+            what = "C05 Conn path on a record truncated by the broker: " + what
+        failures.append(dict(layer="property", key=key,
+                             what=f"{what} [{len(lst)} cases; operations {','.join(ops)}]",
+                             detail=json.dumps(dict(case=c["line"][:1500], go=c["go"], feats=c["feats"][:300],
+                                                    replay="echo '<case>' | /verif/build/bin/c11 -run   (or ./check C11 --replay <file>)")),
+                             input=dict(case=c["line"], go=c["go"], feats=c["feats"])))
+    hist = {}
+    for c in sel:
+        f = feats_of(c)
+        for k in ("op", "nwhole", "hdr", "mode"):
+            if k in f:
+                hist[f"{k}={f[k]}"] = hist.get(f"{k}={f[k]}", 0) + 1
+    samples = [c["line"][:260] + " | " + c["go"][:140] + " | " + c["feats"][:120] for c in (sel[:2] + sel[len(sel)//2:len(sel)//2+2] + sel[-2:])]
+    return dict(evaluations=len(sel), distinct_nontrivial=len({c["line"] for c in sel}), hist=hist,
+                rule="PART K of harness/cmd/c11: complete fetch v2/v10 frames whose uncompressed magic-2 batch is truncated by the broker at every "
+                     "byte of its last record (0..3 whole records before it, with / without record headers), read through Batch.ReadMessage, "
+                     "Batch.Read, Conn.ReadMessage, Conn.Read, next responses queued or not; predicate on the real Conn's output: exactly the "
+                     "whole records are delivered and the action at the truncation returns no data",
+                samples=samples, failures=failures, notes=[], extra=dict(exhaustive=True))
 
 
 def search(ctx, violations):
